@@ -148,3 +148,29 @@ Example C18_example :
               SThr 0 Miss; SThr 0 Miss; SThr 0 Miss; SThr 0 Miss; SThr 0 Miss] in
   map p_got (p_threads p) = [[Tok 0 0; Tok 0 1]; [Tok 0 0]] /\ p_bag p = [].
 Proof. vm_compute. repeat split; discriminate. Qed.
+
+(* The same register theorem with the SHARED definition of linearizability
+   (Lib/Lin.v, possibilities form of Herlihy & Wing, used for C04/C05; its
+   sanity theorem [seq_linearizable_iff] shows that on sequential histories it
+   means exactly "responses = specification run in order"): the history of
+   invocation and response events ([events_of] maps them to HInv/HRes and
+   drops nothing else) of every program under every schedule is linearizable
+   w.r.t. the ideal register [register_spec] = [spec_step] started empty.
+   Proved by showing that the marker form above implies the shared definition
+   (Sync/AtomicLin.v, [marker_form_classical]). *)
+From Typ Require Import Lib.Lin Sync.AtomicLin.
+
+Theorem C18_marker_form_classical : forall (V : Type) (zero : V) (eqb : V -> V -> bool),
+  (forall x y, eqb x y = true <-> x = y) ->
+  forall h : list (aevent V),
+    Linearizable zero eqb h -> Lin.linearizable (register_spec V zero eqb) (zero_state V) (events_of V h).
+Proof. exact marker_form_classical. Qed.
+Print Assumptions C18_marker_form_classical.
+
+Theorem C18_register_linearizable_hw : forall (V : Type) (zero : V) (eqb : V -> V -> bool),
+  (forall x y, eqb x y = true <-> x = y) ->
+  forall (progs : list (list (op V))) (s : list (tid * bool)),
+    Lin.linearizable (register_spec V zero eqb) (zero_state V)
+      (events_of V (ahistory (arun zero eqb (ainit progs) s))).
+Proof. exact register_linearizable_hw. Qed.
+Print Assumptions C18_register_linearizable_hw.
